@@ -708,14 +708,29 @@ def oracle(c, ctx):
                 f = _check_makestr("quantity type string", qt, types)
                 if f:
                     return dict(inp, **f)
+                # the unit-name string lists every composing unit (joined per unit, as in the unit string) under its
+                # registered name; units of one quantity type that are registered under one name (aliases such as
+                # Ci / curie) are a don't-care, units of DIFFERENT quantity types under one name merge two factors
                 try:
-                    names = merged([[db.GetUnitName(db.GetCategoryQuantityType(c_), u), e] for c_, u, e in ent])
+                    ufs = merged([[(db.GetCategoryQuantityType(c_), u), e] for c_, u, e in ent])
+                    named = [[db.GetUnitName(k[0], k[1]), e, k] for k, e in ufs]
                 except Exception:
-                    names = None
-                if names is not None:
-                    f = _check_makestr("unit name string", q.GetUnitName(), names)
-                    if f:
-                        return dict(inp, **f)
+                    named = None
+                if named is not None:
+                    owners = {}
+                    for n_, _e, k in named:
+                        owners.setdefault(n_, set()).add(k)
+                    shared = {n_: sorted(ks) for n_, ks in owners.items() if len(ks) > 1}
+                    if any(len({k[0] for k in ks}) > 1 for ks in shared.values()):
+                        return dict(inp, clause="the unit-name string lists every factor with its exponent: two composing "
+                                                "units of different quantity types carry the same registered name, so "
+                                                "GetUnitName merges their factors", got=q.GetUnitName(),
+                                    shared_names={n_: [list(k) for k in ks] for n_, ks in shared.items()},
+                                    unit_string=unit)
+                    if not shared:
+                        f = _check_makestr("unit name string", q.GetUnitName(), [[n_, e] for n_, e, _k in named])
+                        if f:
+                            return dict(inp, **f)
             # a value object's repr/str show that unit
             if s is not None:
                 quoted = re.findall(r"'([^']*)'", repr(s))
